@@ -2398,12 +2398,7 @@ func (c *Ctx) indexSync(rule string, funcs []*FuncInfo) (n, nviol int) {
 		if sig.Results().Len() == 0 || !strings.HasSuffix(sig.Results().At(0).Type().String(), "tree.Node") {
 			return false
 		}
-		for _, call := range callsIn(gi.Decl.Body, true) {
-			if isRepoFunc(calleeOf(gi.Pkg.TypesInfo, call), "tree", "Tree", "NewNode") {
-				return true
-			}
-		}
-		return false
+		return c.reaches(g, func(h *types.Func) bool { return isRepoFunc(h, "tree", "Tree", "NewNode") }, 3, map[*types.Func]bool{})
 	}
 	for _, fi := range funcs {
 		if fi.Decl.Body == nil {
@@ -3776,4 +3771,13 @@ func (c *Ctx) uniformCandidates(rule string) {
 	if n == 0 {
 		c.Undecided(rule, "tree.RandomUniformBinaryTree/candidates", fi.Decl.Pos(), "no branch creation found")
 	}
+}
+
+// isAdjPrimitive: the adjacency primitives of package tree (their own stores are checked elsewhere).
+func (c *Ctx) isAdjPrimitive(g *types.Func) bool {
+	switch g.Name() {
+	case "addChild", "delNeighbor", "ConnectNodes", "NewNode", "NewEdge", "setLeft", "setRight", "Inverse", "unconnectNode", "delNode":
+		return true
+	}
+	return false
 }
